@@ -1181,6 +1181,31 @@ func (h *H) Step(op string) (out string) {
 	switch f[0] {
 	case "w":
 		return h.Write(f[1])
+	case "wbig":
+		// 12 MB of incompressible filler under a measurement nothing reads: the WAL segment
+		// grows past its roll-over size (a constant 10 MiB), so the next write starts a new
+		// segment and this one is closed
+		seed := uint64(len(f)) + 0x9e3779b97f4a7c15
+		const alnum = "abcdefghijklmnopqrstuvwxyzABCDEFGHIJKLMNOPQRSTUVWXYZ0123456789"
+		var pts []models.Point
+		for i := 0; i < 12; i++ {
+			b := make([]byte, 1<<20)
+			for j := range b {
+				seed ^= seed << 13
+				seed ^= seed >> 7
+				seed ^= seed << 17
+				b[j] = alnum[seed%62]
+			}
+			pt, err := models.NewPoint("zfill", models.NewTags(map[string]string{"k": "a"}), models.Fields{"s": string(b)}, time.Unix(0, int64(i)))
+			if err != nil {
+				return "bad-op"
+			}
+			pts = append(pts, pt)
+		}
+		if err := h.Store.WriteToShard(ShardID, pts); err != nil {
+			return "err:" + strings.ReplaceAll(err.Error(), " ", "_")
+		}
+		return "ok"
 	case "wr":
 		// range write: n integer points at t0 + i*step with values vbase + i
 		t0, stp, n, vb := i64(f[5]), i64(f[6]), int(i64(f[7])), i64(f[8])
